@@ -328,6 +328,15 @@ func replayOnce(c *Ctx, rf *ReplayFile) (bool, string, error) {
 			return true, fmt.Sprintf("call %d: %s", k+1, v.msg), nil
 		}
 		return false, "every call of the preemptive host world returned the library result", nil
+	case "host-c16-preempt-crash":
+		_, _, err := runHostWorld(c, rf.Host, rf.Sched)
+		if e, ok := err.(*hostCrashErr); ok {
+			return true, e.Error(), nil
+		}
+		if err != nil {
+			return false, "", err
+		}
+		return false, "the host survived the world", nil
 	case "host-c16-crash":
 		_, err := runHost(c, rf.Host, false)
 		if e, ok := err.(*hostCrashErr); ok {
